@@ -76,8 +76,8 @@ Definition ex_fs : list (str * node leaf) :=
   [(sa "n", NLeaf (mk (LInt (Some 1%Z) (Some 100%Z)) false (PInt 3)));
    (sa "s", NLeaf (mk (LStr (Some 2%nat) None false false) true (PStr (sa "abc"))));
    (sa "sub", NSub false [] [(sa "a", NLeaf (mk (LInt None (Some 20%Z)) false (PInt 5)))])].
-Definition ex_root : cfg := snd (build_cfg leaf ldefault l_callable w0 ex_fs).
-Definition ex_w : world := fst (build_cfg leaf ldefault l_callable w0 ex_fs).
+Definition ex_root : cfg := snd (build_cfg leaf lvalidate lto_python ldefault l_callable lflag (vrun []) w0 ex_fs).
+Definition ex_w : world := fst (build_cfg leaf lvalidate lto_python ldefault l_callable lflag (vrun []) w0 ex_fs).
 Definition ex_do (c : cfg) (ps : list pstep) (o : cop) :=
   at_path leaf lvalidate lto_python ldefault l_callable lflag (vrun []) ps ex_w [] c false [] ex_fs o.
 
@@ -113,11 +113,11 @@ Definition ex_fs_flag : list (str * node leaf) :=
   [(sa "sub", NSub false [] [(sa "enabled", NLeaf (mk LFlag false (PBool false)));
                              (sa "need", NLeaf (mk (LInt None None) true PNone))])].
 Example F36_exempt_when_validating :
-  let c := snd (build_cfg leaf ldefault l_callable w0 ex_fs_flag) in
+  let c := snd (build_cfg leaf lvalidate lto_python ldefault l_callable lflag (vrun []) w0 ex_fs_flag) in
   validate_errs leaf lvalidate lflag (vrun []) (NSub false [] ex_fs_flag) [] (VCfg c) = [].
 Proof. vm_compute. reflexivity. Qed.
 Example F36_refuted :
-  let '(w, c) := build_cfg leaf ldefault l_callable w0 ex_fs_flag in
+  let '(w, c) := build_cfg leaf lvalidate lto_python ldefault l_callable lflag (vrun []) w0 ex_fs_flag in
   let t := PDict 0 [(PStr (sa "sub"), PDict 0 [(PStr (sa "enabled"), PBool false); (PStr (sa "need"), PNone)])] in
   snd (load_tree leaf lvalidate lto_python ldefault l_callable lflag (vrun []) t true w [] c false [] ex_fs_flag)
   = OErr (EValidation (sa "sub.need")).
@@ -186,29 +186,29 @@ Qed.
 
 (* every state reachable from a fresh configuration by any history is well-formed, given valid declared defaults *)
 Theorem inst_reachable_wf : forall vt ops w dyn vs fs,
-  (forall f n, inst_meets f (ldefault f n)) -> ok_fields leaf fs -> objs_ok leaf inst_meets fs ops ->
+  (forall f n, inst_meets f (ldefault f n)) -> ok_fields leaf lvalidate lto_python ldefault l_callable lflag (vrun vt) fs -> objs_ok leaf inst_meets fs ops ->
   wf_cfg leaf inst_meets fs
     (run leaf lvalidate lto_python ldefault l_callable lflag (vrun vt) ops
-         (fst (build_cfg leaf ldefault l_callable w fs)) (snd (build_cfg leaf ldefault l_callable w fs)) dyn vs fs).
+         (fst (build_cfg leaf lvalidate lto_python ldefault l_callable lflag (vrun vt) w fs)) (snd (build_cfg leaf lvalidate lto_python ldefault l_callable lflag (vrun vt) w fs)) dyn vs fs).
 Proof. intros. apply reachable_wf; [apply inst_validate_sound | assumption | assumption | assumption]. Qed.
 
 (* ... including histories that build configuration objects on the side (from the schema of the slot they go to) and
    hand them over by assignment, append, item assignment or insert: no condition on the objects is left *)
 Theorem inst_reachable_x_wf : forall vt ops w dyn vs fs,
-  (forall f n, inst_meets f (ldefault f n)) -> ok_fields leaf fs ->
+  (forall f n, inst_meets f (ldefault f n)) -> ok_fields leaf lvalidate lto_python ldefault l_callable lflag (vrun vt) fs ->
   xobjs_ok leaf inst_meets fs ops ->
   wf_cfg leaf inst_meets fs
     (run_x leaf lvalidate lto_python ldefault l_callable lflag (vrun vt) ops
-         (fst (build_cfg leaf ldefault l_callable w fs)) (snd (build_cfg leaf ldefault l_callable w fs)) dyn vs fs).
+         (fst (build_cfg leaf lvalidate lto_python ldefault l_callable lflag (vrun vt) w fs)) (snd (build_cfg leaf lvalidate lto_python ldefault l_callable lflag (vrun vt) w fs)) dyn vs fs).
 Proof. intros. apply reachable_x_wf; [apply inst_validate_sound | assumption | assumption | assumption]. Qed.
 
 (* ... and histories in which a refused object is kept, worked on and offered again *)
 Theorem inst_reachable_xs_wf : forall vt ops w dyn vs fs,
-  (forall f n, inst_meets f (ldefault f n)) -> ok_fields leaf fs ->
-  xs_ok leaf inst_meets fs ops None ->
+  (forall f n, inst_meets f (ldefault f n)) -> ok_fields leaf lvalidate lto_python ldefault l_callable lflag (vrun vt) fs ->
+  xs_ok leaf lvalidate lto_python ldefault l_callable lflag (vrun vt) inst_meets fs ops None ->
   wf_cfg leaf inst_meets fs
     (run_xs leaf lvalidate lto_python ldefault l_callable lflag (vrun vt) ops
-         (fst (build_cfg leaf ldefault l_callable w fs)) None (snd (build_cfg leaf ldefault l_callable w fs)) dyn vs fs).
+         (fst (build_cfg leaf lvalidate lto_python ldefault l_callable lflag (vrun vt) w fs)) None (snd (build_cfg leaf lvalidate lto_python ldefault l_callable lflag (vrun vt) w fs)) dyn vs fs).
 Proof. intros. apply reachable_xs_wf; [apply inst_validate_sound | assumption | assumption | assumption]. Qed.
 
 
@@ -221,9 +221,9 @@ Definition ex_need : list (str * node leaf) := [(sa "need", NLeaf (mk (LInt None
 Definition ex_fs_obj : list (str * node leaf) :=
   [(sa "n", NLeaf (mk (LInt (Some 1%Z) (Some 100%Z)) false (PInt 3)));
    (sa "sub", NSub false [] ex_need);
-   (sa "items", NCfgList false [] ex_need)].
-Definition ex_obj_root : cfg := snd (build_cfg leaf ldefault l_callable w0 ex_fs_obj).
-Definition ex_obj_w : world := fst (build_cfg leaf ldefault l_callable w0 ex_fs_obj).
+   (sa "items", NCfgList false [] ex_need None)].
+Definition ex_obj_root : cfg := snd (build_cfg leaf lvalidate lto_python ldefault l_callable lflag (vrun []) w0 ex_fs_obj).
+Definition ex_obj_w : world := fst (build_cfg leaf lvalidate lto_python ldefault l_callable lflag (vrun []) w0 ex_fs_obj).
 Definition ex_obj_do (w : world) (c : cfg) (ps : list pstep) (x : xop leaf) :=
   at_path_x leaf lvalidate lto_python ldefault l_callable lflag (vrun []) ps w [] c false [] ex_fs_obj x.
 (* an object of the slot's schema whose required field was never set / was set *)
@@ -282,3 +282,54 @@ Example reoffered_obj_rejected_again :
   o2 = OErr (EValidation (sa "items[0].need")) /\ o3 = o2 /\ c3 = c1 /\ o4 = OOk /\ k4 = None /\ o5 = OUnm /\ c5 = c4
   /\ exists it, dget (sa "items") (c_data c4) = Some (VList [it]) /\ dget (sa "need") (c_data it) = Some (VLeaf (PInt 4)).
 Proof. vm_compute. repeat split; try reflexivity. eexists. split; reflexivity. Qed.
+
+(* ---- lists of configurations with declared default items ---- *)
+Definition ex_item : list (str * node leaf) :=
+  [(sa "n", NLeaf (mk (LInt (Some 0%Z) (Some 10%Z)) true PNone)); (sa "s", NLeaf (mk (LStr None (Some 5%nat) true false) false (PStr (sa "d"))))].
+Definition ex_dflt_node (maps : list pyval) : node leaf := NCfgList false [] ex_item (Some (false, maps)).
+Definition ex_maps : list pyval :=
+  [PDict 0 [(PStr (sa "n"), PInt 1)]; PDict 0 [(PStr (sa "n"), PStr (sa "2")); (PStr (sa "s"), PStr (sa "ABC"))]].
+Definition ex_fs_dflt : list (str * node leaf) := [(sa "a", NLeaf (mk (LInt None None) false (PInt 1))); (sa "items", ex_dflt_node ex_maps)].
+Definition ex_dflt_root : cfg := snd (build_cfg leaf lvalidate lto_python ldefault l_callable lflag (vrun []) w0 ex_fs_dflt).
+Definition ex_dflt_w : world := fst (build_cfg leaf lvalidate lto_python ldefault l_callable lflag (vrun []) w0 ex_fs_dflt).
+
+(* a fresh configuration holds one validated, normalised item per declared map; the key is marked default; the
+   configuration validates; editing an item in place through its own path makes whole-configuration validation fail,
+   default mark or not; reset rebuilds the items (new identities) *)
+Example default_list_built :
+  dget (sa "items") (c_data ex_dflt_root)
+    = Some (VList [Cfg 1 [(sa "n", VLeaf (PInt 1)); (sa "s", VLeaf (PStr (sa "d")))] [sa "s"] [];
+                   Cfg 2 [(sa "n", VLeaf (PInt 2)); (sa "s", VLeaf (PStr (sa "abc")))] [] []])
+  /\ defined ex_dflt_root (sa "items") = false
+  /\ validate_errs leaf lvalidate lflag (vrun []) (NSub false [] ex_fs_dflt) [] (VCfg ex_dflt_root) = [].
+Proof. vm_compute. repeat split; reflexivity. Qed.
+Example default_list_item_held_to_the_rule :
+  let step c ps o := at_path leaf lvalidate lto_python ldefault l_callable lflag (vrun []) ps ex_dflt_w [] c false [] ex_fs_dflt o in
+  let '(_, c1, o1) := step ex_dflt_root [PItem (sa "items") 0] (CReset (sa "n")) in
+  let '(_, c2, o2) := step c1 [] (CValidate false) in
+  let '(_, c3, o3) := step c2 [] (CReset (sa "items")) in
+  let '(_, _, o4) := step c3 [] (CValidate false) in
+  o1 = OOk /\ defined c1 (sa "items") = false /\ o2 = OErr (EValidation (sa "items[0].n")) /\ o3 = OOk /\ o4 = OOk
+  /\ map fst (ids_cfg [] c3) = [[]; sa "items[0]"; sa "items[1]"] /\ map snd (ids_cfg [] c3) = [0; 3; 4].
+Proof. vm_compute. repeat split; reflexivity. Qed.
+(* a default that does not load (an item outside its bounds; an undeclared key) makes the build fail: the slot holds the
+   failure marker, and the schema does not meet the premise ok_fields of the C01 theorems *)
+Example default_list_invalid :
+  snd (build_val leaf lvalidate lto_python ldefault l_callable lflag (vrun []) w0 (ex_dflt_node [PDict 0 [(PStr (sa "n"), PInt 99)]]))
+    = VLeaf default_failed
+  /\ snd (build_val leaf lvalidate lto_python ldefault l_callable lflag (vrun []) w0 (ex_dflt_node [PDict 0 [(PStr (sa "zz"), PInt 1)]]))
+    = VLeaf default_failed
+  /\ ~ ok_fields leaf lvalidate lto_python ldefault l_callable lflag (vrun []) [(sa "items", ex_dflt_node [PDict 0 [(PStr (sa "n"), PInt 99)]])].
+Proof.
+  split; [vm_compute; reflexivity|]. split; [vm_compute; reflexivity|].
+  intros [_ H]. inversion H; subst. cbn [snd ex_dflt_node ok_node] in H2. destruct H2 as [_ Hd]. apply (Hd w0). vm_compute. reflexivity.
+Qed.
+(* ... and the premise is satisfiable: the schema of the examples above meets it, in every world *)
+Example ex_dflt_ok_fields : ok_fields leaf lvalidate lto_python ldefault l_callable lflag (vrun []) ex_fs_dflt.
+Proof.
+  split; [cbn; repeat constructor; cbn; intuition discriminate|].
+  repeat constructor; cbn [snd ok_node ex_dflt_node ex_item].
+  - cbn. intuition discriminate.
+  - cbn. intuition.
+  - intro w. vm_compute. discriminate.
+Qed.
